@@ -42,6 +42,7 @@ def handle (line : String) : String :=
   | "withmacro" :: rest => handleWithMacro rest
   | "span" :: rest => handleSpan rest
   | "concat" :: rest => handleConcat rest
+  | "procmacro" :: rest => handleProcMacro rest
   | "makeargs" :: rest => handleMakeArgs rest
   | "builderr" :: rest => handleBuildErr rest
   | "getlines" :: rest => handleGetLines rest
